@@ -206,11 +206,15 @@ def cos_sin(form: dict[str, int]) -> tuple[Poly, Poly]:
 
 
 def poly_cos(p: Poly) -> Poly:
-    return cos_sin(p.angle_form())[0]
+    import sa.poly as _self
+
+    return _self.cos_sin(p.angle_form())[0]
 
 
 def poly_sin(p: Poly) -> Poly:
-    return cos_sin(p.angle_form())[1]
+    import sa.poly as _self
+
+    return _self.cos_sin(p.angle_form())[1]
 
 
 # -------------------------------------------------------------------- matrices
